@@ -298,12 +298,25 @@ class Scenario:
         elif k == "sleep":
             pe.sleep(op[1])
         elif k == "map":
-            _, mid, n, chunksize = op
+            _, mid, lens, chunksize = op
+            its = [list(range(i * 100 + 1, i * 100 + n + 1)) for i, n in enumerate(lens, 1)]
+            want = [tasks.fold.__wrapped__(*a) for a in zip(*its)]
+            futs = []
+            orig = e.submit
+
+            def rec_submit(*a, **kw):
+                f = orig(*a, **kw)
+                futs.append(f)
+                return f
             try:
-                it = e.map(tasks.chunk_fn, range(n), chunksize=chunksize)
-                self.maps = getattr(self, "maps", {})
-                self.maps[mid] = (it, n)
-                S.obs(ev="map_submitted", u=u, m=mid)
+                e.submit = rec_submit
+                try:
+                    it = e.map(tasks.fold, *its, chunksize=chunksize)
+                finally:
+                    del e.submit
+                S.step("user.wait_map(%s)" % mid, pred=lambda: all(f.done() for f in futs))
+                got = list(it)
+                S.obs(ev="map_result", u=u, t=mid, good=(got == want), n=len(got), value=repr(got)[:80])
             except BaseException as ex:
                 S.obs(ev="call_exc", u=u, call="map", type=type(ex).__name__, what=str(ex)[:100])
         elif k == "callback_submit":
